@@ -34,11 +34,13 @@ pub struct FaultyStore<S: Storage> {
     /// when set, the next `multi_get` raises `reached` and reads only after `gate` is notified (a peer's document fetch
     /// that is overtaken by later mutations of this store)
     pub gate_fetch: Arc<std::sync::atomic::AtomicBool>,
+    /// when set, the next `get` / `multi_get` fails (a peer whose document fetch cannot be served: `fetch_docs` answers with an error)
+    pub fail_read: Arc<std::sync::atomic::AtomicBool>,
 }
 
 impl<S: Storage> FaultyStore<S> {
     pub fn new(inner: Arc<S>) -> Self {
-        Self { inner, next: Arc::new(Mutex::new(Directive::None)), gate: Arc::new(tokio::sync::Notify::new()), reached: Arc::new(std::sync::atomic::AtomicBool::new(false)), gate_meta: Arc::new(std::sync::atomic::AtomicBool::new(false)), gate_fetch: Arc::new(std::sync::atomic::AtomicBool::new(false)) }
+        Self { inner, next: Arc::new(Mutex::new(Directive::None)), gate: Arc::new(tokio::sync::Notify::new()), reached: Arc::new(std::sync::atomic::AtomicBool::new(false)), gate_meta: Arc::new(std::sync::atomic::AtomicBool::new(false)), gate_fetch: Arc::new(std::sync::atomic::AtomicBool::new(false)), fail_read: Arc::new(std::sync::atomic::AtomicBool::new(false)) }
     }
 
     fn take(&self) -> Directive {
@@ -193,6 +195,9 @@ impl<S: Storage> Storage for FaultyStore<S> {
             self.reached.store(true, std::sync::atomic::Ordering::SeqCst);
             self.gate.notified().await;
         }
+        if self.fail_read.swap(false, std::sync::atomic::Ordering::SeqCst) {
+            return Err(FaultyError("read".into()));
+        }
         self.inner.get(keyspace, doc_id).await.map_err(wrap)
     }
 
@@ -200,6 +205,9 @@ impl<S: Storage> Storage for FaultyStore<S> {
         if self.gate_fetch.swap(false, std::sync::atomic::Ordering::SeqCst) {
             self.reached.store(true, std::sync::atomic::Ordering::SeqCst);
             self.gate.notified().await;
+        }
+        if self.fail_read.swap(false, std::sync::atomic::Ordering::SeqCst) {
+            return Err(FaultyError("read".into()));
         }
         self.inner.multi_get(keyspace, doc_ids).await.map_err(wrap)
     }
